@@ -249,8 +249,12 @@ def rule_alloc(chk, prefix="C02"):
                 and isinstance(e.comparators[0], ast.Constant) and e.comparators[0].value is None:
             return 1 if isinstance(e.ops[0], (ast.Is, ast.Eq)) else -1
         return 0
+    from .. import exprs as X
+    # `previous = self._last_child` read before the store is the same value under another name (matching only)
+    snap = {k_: v_ for k_, v_ in X.single_assignments(ntl).items() if common.is_self_attr(v_, "_last_child")}
+    snap_ok = all(cfg.precedes([x for x in cfg.live if isinstance(x.ast, ast.Assign) and isinstance(x.ast.targets[0], ast.Name) and x.ast.targets[0].id == k_], stores)[0] for k_ in snap)
     for n in list(stores):
-        v = n.ast.value
+        v = X.inline(ntl, n.ast.value, snap) if snap_ok else n.ast.value
         if isinstance(v, ast.IfExp):
             pol = _none_polarity(v.test)
             first, nxt = (v.body, v.orelse) if pol == 1 else (v.orelse, v.body)
@@ -265,7 +269,7 @@ def rule_alloc(chk, prefix="C02"):
             for t, lab in guards:
                 if t.kind != "test":
                     continue
-                e = t.exprs[0]
+                e = X.inline(ntl, t.exprs[0], snap) if snap_ok else t.exprs[0]
                 if isinstance(e, ast.UnaryOp) and isinstance(e.op, ast.Not) and common.is_self_attr(e.operand, "_last_child"):
                     return 1 if lab == "true" else -1
                 if common.is_self_attr(e, "_last_child"):
